@@ -298,12 +298,41 @@ def run(chk: Check):
             if prog["threads"] and prog["threads"][0]:
                 q = prog["threads"][0][-1]
                 chk.sample({"programme": info, "a_request": {k: q[k] for k in ("kind", "backend", "assignment", "out_format")}})
+    # hammer: unsynchronised phases (one shared compiled method called with per-thread sizes; never-seen problems
+    # compiled while cached calls repeat, enough of them for the kernel cache to fill and evict)
+    for rep in range(3 if thorough else 1):
+        hspec = {"seed": chk.seed * 101 + rep, "threads": 8, "calls": 4000 if thorough else 1200, "builders": 3,
+                 "fresh": 200 if thorough else 90, "repeaters": 12, "switch": 1e-6, "timeout": 600 if thorough else 240}
+        rc, res, log = run_script("hammer", f"hammer{rep}", hspec, timeout=hspec["timeout"] + 120)
+        if res is None:
+            chk.violation("the threaded process crashed or hung in the hammer phases (exit status "
+                          f"{rc}); alone, the same calls return", {"input": {"hammer": hspec}, "log": log[-1500:]})
+            continue
+        for k, v in res["counts"].items():
+            chk.count("hammer:" + k, v)
+        for i in range(res["counts"]["sizes_calls"] // 100 + res["counts"]["fresh_built"]):
+            chk.case(("hammer", chk.seed, rep, i), nontrivial=True)
+        for a in res["anomalies"][:5]:
+            chk.violation("a call made while other threads were inside the library returned something else than the same call alone "
+                          f"(hammer phase '{a.get('phase')}')", {"input": {"hammer": hspec}, "anomaly": a})
     if not os.environ.get("C14_KEEP"):
         shutil.rmtree(WORK, ignore_errors=True)
 
 
 def replay(chk: Check, payload: dict) -> int:
     inp = payload.get("input")
+    if inp and "hammer" in inp:
+        WORK.mkdir(parents=True, exist_ok=True)
+        bad = 0
+        for attempt in range(3):
+            rc, res, log = run_script("hammer", f"replay_hammer{attempt}", inp["hammer"], timeout=inp["hammer"].get("timeout", 240) + 120)
+            print(f"attempt {attempt}: rc={rc} anomalies={None if res is None else len(res['anomalies'])}")
+            if res is None or res["anomalies"]:
+                bad = 1
+                print(json.dumps((res or {}).get("anomalies", [])[:1], indent=1)[:3000])
+                break
+        shutil.rmtree(WORK, ignore_errors=True)
+        return bad
     if not inp or "programme" not in inp:
         print("replay has no programme (see 'broken' in the file)")
         return 1
